@@ -270,7 +270,7 @@ def decide(ck, c, ir, mr, stats, engine="memory"):
             stats["tags"]["nljoin:outer-todo"] = stats["tags"].get("nljoin:outer-todo", 0) + 1
             ck.report("nljoin:outer-todo", "the chosen plan uses the nested-loop RIGHT/FULL OUTER join, which is todo!(): `%s` fails with %s" % (c["sql"], ist[:100]), replay=rep)
             return
-        kind = "panic" if (ist.startswith("panic") or "operator panicked" in ist) else "error"
+        kind = "panic" if (ist.startswith("panic") or "operator panicked" in ist or "builder panicked" in ist) else "error"
         what = ist
         mech = ("column-not-found" if "not found from input" in ist else
                 "apply-not-rewritten" if "Apply is not supported" in ist else
@@ -367,7 +367,7 @@ def decide(ck, c, ir, mr, stats, engine="memory"):
 
 
 def run(ck):
-    n = 560 if ck.quick() else 10000
+    n = 500 if ck.quick() else 10000
     bad = vlib.step_lean(ck, "RlModel.Thm.C02", THEOREMS, extra_targets=["drv_c02"])
     ok, log = vlib.step_cargo(ck, ["c02"])
     if not ok:
